@@ -1,6 +1,7 @@
 import Sonic.Proofs.LedgerSession
 import Sonic.Proofs.LedgerSim
 import Sonic.Props.C12
+import Sonic.Proofs.DocBuf
 
 /-!
 # C13 — Every allocation is released exactly once and copies are independent
@@ -229,5 +230,43 @@ example : ((lrun env1 LSession.init [.reset .simple, .node 0 [] (.set .obj),
 /-- both interpreters accept every command of `history`: `agreeB` is the executable form of `Agree`
     (`agree_of_agreeB`), so `C13_erase` applies to this run -/
 example : agreeB env1 LSession.init history = true := by decide +kernel
+
+end Sonic.Props.C13
+
+namespace Sonic.Props.C13
+open Sonic.Model.DocBuf
+
+/-! ## the documents' text buffers: `str_` and the chain of `schema_str_` buffers (`Sonic.Model.DocBuf`)
+
+`ParseSchema` is outside the node ledger above; what it adds to a document's ownership is the chain of schema buffers
+(repair of F13).  For EVERY history of `Parse` / `ParseSchema` / `Swap` / move assignment / destruction over two documents: -/
+
+/-- no double or foreign free ever; every live block is pointed to by exactly one of the two documents (as `str_` or as one
+    link of a schema chain) and vice versa; block ids are never reused while live -/
+theorem C13_docbuf_inv (ops : List Op) :
+    (run ops).faults = 0 ∧ (run ops).owned.Nodup ∧ (∀ x, x ∈ (run ops).live ↔ x ∈ (run ops).owned) ∧
+    (run ops).live.Nodup := by
+  have h := run_inv ops
+  exact ⟨h.faults, h.ownedNodup, h.liveIff, h.liveNodup⟩
+
+/-- balanced: after both documents are destroyed nothing is live (no buffer of any earlier `ParseSchema` call is leaked — the
+    defect F13 — and none was freed twice) -/
+theorem C13_docbuf_no_leak (ops : List Op) :
+    (run (ops ++ [.destroy .a, .destroy .b])).live = [] ∧ (run (ops ++ [.destroy .a, .destroy .b])).faults = 0 :=
+  run_no_leak ops
+
+/-- `ParseSchema` releases nothing, and the buffers of all `ParseSchema` calls on a document since its last `Parse` are live
+    and distinct in every reachable state: string nodes written by an earlier call never dangle while the document lives -/
+theorem C13_docbuf_schema_keeps (ops : List Op) (w : Who) :
+    (step (run ops) (.schema w)).live = (run ops).next :: (run ops).live ∧
+    ((run ops).get w).chain.Nodup ∧ ∀ x ∈ ((run ops).get w).chain, x ∈ (run ops).live :=
+  ⟨(schema_keeps _ w).1, chain_live ops w⟩
+
+/-- non-vacuity: two ParseSchema calls after a Parse hold three blocks; a swap and a move assignment later the receiver's
+    old buffers are gone and the donor's chain survives; destruction releases everything -/
+example : (run [.parse .a, .schema .a, .schema .a]).live = [2, 1, 0] ∧
+    (run [.parse .a, .schema .a, .schema .a, .parse .b, .swap, .massign .a]).live = [2, 1, 0] ∧
+    (run [.parse .a, .schema .a, .schema .a, .parse .b, .swap, .massign .b]).live = [3] ∧
+    (run [.parse .a, .schema .a, .schema .a, .parse .a]).live = [3] := by decide
 
 end Sonic.Props.C13
